@@ -76,7 +76,7 @@ func rprop(f func(ConstVector) (MagicScalar, error), x0 ConstVector, step_init f
   }
   gradient_is_nan := func(s Scalar) bool {
     for i := 0; i < s.GetN(); i++ {
-      if math.IsNaN(s.GetDerivative(i)) {
+      if math.IsNaN(s.GetDerivative(i)) || math.IsInf(s.GetDerivative(i), 0) {
         return true
       }
     }
@@ -147,10 +147,19 @@ func rprop(f func(ConstVector) (MagicScalar, error), x0 ConstVector, step_init f
       if err != nil || gradient_is_nan(s) ||
         (constraints.Value != nil && !constraints.Value(x2)) {
         // if the updated is invalid reduce step size
+        stuck := true
         for i := 0; i < x1.Dim(); i++ {
           if gradient_new[i] != 0.0 {
             step[i] *= eta[1]
+            if x1.Float64At(i) - step[i] != x1.Float64At(i) ||
+               x1.Float64At(i) + step[i] != x1.Float64At(i) {
+              stuck = false
+            }
           }
+        }
+        // stop if the step size cannot be reduced any further
+        if stuck {
+          return x1, fmt.Errorf("objective function cannot be evaluated in the neighborhood of %v", x1)
         }
       } else {
         // new position is valid, exit loop
